@@ -26,6 +26,7 @@ type LoopSpec struct {
 	Binder     string
 	Invariants []Clause
 	Decreases  string
+	Match      string // text the loop header must contain (binding by content instead of by position)
 }
 
 type GhostStmt struct {
@@ -421,9 +422,18 @@ func (cs *Contracts) ParseFile(path string) error {
 					return fmt.Errorf("%s:%d: loop needs ordinal", path, rc.line)
 				}
 				curL = &LoopSpec{N: n}
-				for i := 1; i+1 < len(fs); i += 2 {
-					if fs[i] == "binder" {
-						curL.Binder = fs[i+1]
+				// loop N [binder b] [match <text of the loop header>]: with match, contract loop N is bound to the
+				// first loop (in source order) whose header contains the text, so that loops added or removed
+				// elsewhere in the function do not shift it
+				rest := strings.TrimSpace(strings.TrimPrefix(strings.TrimSpace(rc.rest), fs[0]))
+				if k := strings.Index(rest, "match "); k >= 0 {
+					curL.Match = strings.TrimSpace(rest[k+6:])
+					rest = rest[:k]
+				}
+				bf := strings.Fields(rest)
+				for i := 0; i+1 < len(bf); i += 2 {
+					if bf[i] == "binder" {
+						curL.Binder = bf[i+1]
 					}
 				}
 				curF.Loops[n] = curL
